@@ -16,6 +16,22 @@ import (
 type handle struct {
 	hi  *sqlittle.DB
 	low *sdb.Database
+	// the row the previous rowid lookup on this handle returned, as it was handed out, and a copy of it:
+	// it must not change while other lookups run (on this or on any other handle)
+	keptRow   sqlittle.Row
+	keptClone hx.Row
+	keptFrom  string
+}
+
+// keepLookup checks the row kept from the previous rowid lookup and keeps this one instead.
+func (h *handle) keepLookup(c *collector, from string, r sqlittle.Row) {
+	if h.keptRow != nil && !hx.RowEqualStrict(hx.Row(h.keptRow), h.keptClone) && c.changed == "" {
+		c.changed = fmt.Sprintf("the row returned earlier by %s changed while later lookups ran: was %s, now %s", h.keptFrom, hx.RowString(h.keptClone), hx.RowString(hx.Row(h.keptRow)))
+	}
+	h.keptRow, h.keptClone, h.keptFrom = nil, nil, ""
+	if r != nil {
+		h.keptRow, h.keptClone, h.keptFrom = r, hx.CloneRow(r), from
+	}
 }
 
 // openMem opens a handle over an in-memory image through the verif hook.
@@ -284,6 +300,7 @@ func buildOps(data []byte, lockLow bool, maxPerKind int) ([]op, error) {
 				add(op{name: fmt.Sprintf("SelectRowid/%s/%d", tn, id), kind: "SelectRowid", highLvl: true, table: tn, run: func(h *handle, _ int) opResult {
 					return runOp(func(c *collector) error {
 						r, err := h.hi.SelectRowid(tn, id, selCols...)
+						h.keepLookup(c, fmt.Sprintf("SelectRowid(%s, %d)", tn, id), r)
 						if r != nil {
 							c.add(r)
 						}
